@@ -65,6 +65,9 @@ func RedirectImports(dir string, redirect map[string]string) ([]string, error) {
 				if i := strings.LastIndex(base, "/"); i >= 0 {
 					base = base[i+1:]
 				}
+				if path == "math/rand/v2" {
+					base = "rand" // a major-version suffix is not the package name
+				}
 				imp.Name = ast.NewIdent(base)
 			}
 			imp.Path.Value = strconv.Quote(to)
